@@ -305,6 +305,27 @@ func genCreateJSON() ([]byte, genInfo) {
 	return b, info
 }
 
+const directedJSON = `{
+ "paper": "A4P", "origin": "LowerLeft",
+ "fonts": {"input": {"name": "Helvetica", "size": 12}, "label": {"name": "Helvetica", "size": 12}},
+ "pages": {"1": {"content": {
+   "textfield": [
+     {"id": "t1", "value": "Jackie", "pos": [180, 770], "width": 100, "maxlen": 10},
+     {"id": "t2", "multiline": true, "pos": [180, 700], "width": 100, "height": 50, "default": "dd"},
+     {"id": "t3", "value": "kept", "pos": [300, 770], "width": 100, "locked": true}
+   ],
+   "datefield": [ {"id": "d1", "pos": [180, 650], "width": 80, "format": "d.m.yyyy", "value": "1.2.2003"},
+                  {"id": "d2", "pos": [300, 650], "width": 80, "format": "yyyy-mm-dd", "value": "2001-02-03", "locked": true} ],
+   "checkbox": [ {"id": "c1", "value": true, "pos": [180, 620], "width": 12}, {"id": "c2", "value": false, "pos": [280, 620], "width": 12, "locked": true} ],
+   "radiobuttongroup": [ {"id": "r2", "value": "a", "locked": true, "orientation": "hor", "pos": [70, 560], "width": 12, "buttons": {"values": ["a", "b"], "label": {"value": "x", "width": 50, "gap": 10, "pos": "right"}}},
+     {"id": "r1", "value": "b", "orientation": "hor", "pos": [70, 590], "width": 12, "buttons": {"values": ["a", "b", "c d"], "label": {"value": "x", "width": 50, "gap": 10, "pos": "right"}}} ],
+   "combobox": [ {"id": "co1", "value": "male", "options": ["female", "male", "non binary"], "edit": false, "pos": [150, 550], "width": 100},
+                 {"id": "co2", "value": "female", "options": ["female", "male", "non binary"], "edit": false, "pos": [300, 550], "width": 100, "locked": true} ],
+   "listbox": [ {"id": "l1", "value": "male", "options": ["female", "male", "non binary"], "multi": false, "pos": [150, 480], "width": 100, "height": 42},
+                {"id": "l2", "values": ["male", "female"], "options": ["female", "male", "non binary"], "multi": true, "pos": [300, 480], "width": 100, "height": 42} ]
+ }}}
+}`
+
 func createPDF(spec []byte) (pdf []byte, err error) {
 	defer func() {
 		if p := recover(); p != nil {
@@ -325,7 +346,7 @@ type mutation struct {
 }
 
 // mutateValid gives every field a random valid value for its type and flips some lock flags.
-func mutateValid(f *form.Form, flipLocks bool) mutation {
+func mutateValid(f *form.Form, flipLocks bool, force string) mutation {
 	m := mutation{edge: map[string]string{}}
 	flip := func(l *bool) {
 		if flipLocks && r.Rand.Intn(4) == 0 {
@@ -350,9 +371,9 @@ func mutateValid(f *form.Form, flipLocks bool) mutation {
 	}
 	for _, t := range f.RadioButtonGroups {
 		switch {
-		case len(t.Options) > 0 && r.Rand.Intn(8) > 0:
+		case force != "radio" && len(t.Options) > 0 && r.Rand.Intn(8) > 0:
 			t.Value = t.Options[r.Rand.Intn(len(t.Options))]
-		case r.Rand.Intn(2) == 0:
+		case force == "radio" || r.Rand.Intn(2) == 0:
 			if t.Value != "" {
 				m.edge[t.ID] = "radio-deselect"
 			}
@@ -373,9 +394,9 @@ func mutateValid(f *form.Form, flipLocks bool) mutation {
 		switch {
 		case t.Multi && r.Rand.Intn(8) > 0:
 			t.Values = subset(t.Options)
-		case !t.Multi && len(t.Options) > 0 && r.Rand.Intn(8) > 0:
+		case force != "list" && !t.Multi && len(t.Options) > 0 && r.Rand.Intn(8) > 0:
 			t.Values = []string{t.Options[r.Rand.Intn(len(t.Options))]}
-		case r.Rand.Intn(2) == 0:
+		case force == "list" || r.Rand.Intn(2) == 0:
 			if !t.Multi && len(t.Values) > 0 {
 				m.edge[t.ID] = "listbox-single-deselect"
 			}
@@ -496,14 +517,14 @@ func input(origin string, pdf []byte, fg *form.FormGroup, extra map[string]any) 
 
 // fillCase runs one fill on the implementation, records the correspondence cases and returns the
 // output (or the input when nothing was written) and the export after the fill.
-func fillCase(origin string, pdf []byte, p0 []pfield, fg *form.FormGroup) (after []byte, exp *form.FormGroup, status string) {
+func fillCase(origin string, pdf []byte, p0 []pfield, fg *form.FormGroup, edge string) (after []byte, exp *form.FormGroup, status string) {
 	tbl := dateTable(candidates(p0, fg))
 	out, status, err := realFill(pdf, fg)
 	jw := wJForm(jEntries(&fg.Forms[0]))
 	r.Count("fill:" + status)
 	switch status {
 	case "panic":
-		r.OracleFail("fill-panics:"+panicClass(err), input(origin, pdf, fg, nil), err.Error())
+		r.OracleFail("fill-panics:"+panicClass(err)+edge, input(origin, pdf, fg, nil), err.Error())
 		r.Case("fill", []string{tbl, wPForm(p0), jw}, "err")
 		return nil, nil, status
 	case "err":
@@ -532,6 +553,14 @@ func fillCase(origin string, pdf []byte, p0 []pfield, fg *form.FormGroup) (after
 	// the table must also know the strings now stored in the form
 	r.Case("fillexport", []string{dateTable(candidates(p0, fg, exp)), wPForm(p0), jw}, "ok:"+wJFormSorted(jEntries(&exp.Forms[0])))
 	return after, exp, status
+}
+
+// pick: fields without /T are judged under one class of their own (their lookup matches any unnamed entry).
+func pick(special, normal string) string {
+	if special != "" {
+		return special
+	}
+	return normal
 }
 
 func panicClass(err error) string {
@@ -568,21 +597,28 @@ func scenario(origin string, pdf []byte, mutate bool) {
 	r.Case("export", []string{tbl0, wPForm(p0)}, "ok:"+wJFormSorted(e0))
 	v0 := valuesByID(j0)
 	locked0 := map[string]bool{}
+	unnamed := map[string]string{}
 	for _, f := range p0 {
 		locked0[f.id] = f.locked
+		if f.name == "" {
+			unnamed[f.id] = "unnamed-field-takes-other-entry:"
+		}
 	}
 
 	// O1: fill with the values just exported
-	_, j1, st := fillCase(origin, pdf, p0, cloneFG(j0))
+	_, j1, st := fillCase(origin, pdf, p0, cloneFG(j0), "")
 	if st == "err" {
 		// an error writes nothing, so every value is kept; the correspondence case records the class
 		r.Count("fill-exported:err")
+	}
+	if j1 == nil && (st == "ok" || st == "noop") {
+		r.OracleFail("export-fails-after-fill-exported", input(origin, pdf, j0, nil), "api.ExportForm fails after filling with the exported data")
 	}
 	if j1 != nil {
 		v1 := valuesByID(j1)
 		for id, e := range v0 {
 			if g, ok := v1[id]; !ok || g.value != e.value {
-				r.OracleFail("fill-exported-changes-value:"+typeName[e.tag], input(origin, pdf, j0, map[string]any{"field": id}),
+				r.OracleFail(pick(unnamed[id], "fill-exported-changes-value:")+typeName[e.tag], input(origin, pdf, j0, map[string]any{"field": id}),
 					fmt.Sprintf("field %s: exported %q, after filling with the export %q", id, e.value, g.value))
 			} else {
 				r.OracleOK()
@@ -596,12 +632,35 @@ func scenario(origin string, pdf []byte, mutate bool) {
 	// O2/O3: fill with random valid values and lock flags
 	for round := 0; round < 2; round++ {
 		jv := cloneFG(j0)
-		mut := mutateValid(&jv.Forms[0], round == 1)
-		after, j2, st := fillCase(origin, pdf, p0, jv)
+		force := ""
+		if strings.HasPrefix(origin, "directed") {
+			force = []string{"list", "radio"}[round]
+		}
+		mut := mutateValid(&jv.Forms[0], round == 1 && force == "", force)
+		hasEdge := func(ec string) bool {
+			for _, c := range mut.edge {
+				if c == ec {
+					return true
+				}
+			}
+			return false
+		}
+		edge := "" // narrows the class of a panic
+		if hasEdge("listbox-single-deselect") {
+			edge = ":listbox-single-deselect"
+		}
+		after, j2, st := fillCase(origin, pdf, p0, jv, edge)
 		if st == "err" {
 			r.OracleFail("fill-valid-values-fails", input(origin, pdf, jv, nil), "api.FillForm returned an error for valid values")
 		}
 		if j2 == nil {
+			if st == "ok" || st == "noop" {
+				cls := "export-fails-after-valid-fill"
+				if hasEdge("radio-deselect") {
+					cls += ":radio-deselect"
+				}
+				r.OracleFail(cls, input(origin, pdf, jv, nil), "api.ExportForm fails on the form that api.FillForm produced from valid values")
+			}
 			continue
 		}
 		want := valuesByID(jv)
@@ -616,7 +675,7 @@ func scenario(origin string, pdf []byte, mutate bool) {
 			switch {
 			case !locked0[id]:
 				if !ok || g.value != e.value {
-					r.OracleFail("valid-value-not-reported:"+cls, input(origin, pdf, jv, map[string]any{"field": id}),
+					r.OracleFail(pick(unnamed[id], "valid-value-not-reported:")+cls, input(origin, pdf, jv, map[string]any{"field": id}),
 						fmt.Sprintf("field %s: filled %q, exported %q", id, e.value, g.value))
 				} else {
 					r.OracleOK()
@@ -624,7 +683,7 @@ func scenario(origin string, pdf []byte, mutate bool) {
 			case e.lock:
 				// locked before, still locked afterwards: the value must be the old one
 				if !ok || g.value != v0[id].value {
-					r.OracleFail("locked-field-overwritten:"+typeName[e.tag], input(origin, pdf, jv, map[string]any{"field": id}),
+					r.OracleFail(pick(unnamed[id], "locked-field-overwritten:")+typeName[e.tag], input(origin, pdf, jv, map[string]any{"field": id}),
 						fmt.Sprintf("locked field %s: had %q, fill data %q, exported %q", id, v0[id].value, e.value, g.value))
 				} else {
 					r.OracleOK()
@@ -636,7 +695,7 @@ func scenario(origin string, pdf []byte, mutate bool) {
 		// idempotence: the same data once more
 		if st == "ok" {
 			if p2, err := abstractPDF(after); err == nil {
-				_, j3, st3 := fillCase(origin+":again", after, p2, jv)
+				_, j3, st3 := fillCase(origin+":again", after, p2, jv, "")
 				if j3 != nil {
 					g3 := valuesByID(j3)
 					for id, e := range got {
@@ -660,10 +719,12 @@ func scenario(origin string, pdf []byte, mutate bool) {
 	// invalid data: correspondence only (outcome class and resulting states)
 	jb := cloneFG(j0)
 	mutateInvalid(&jb.Forms[0])
-	fillCase(origin+":invalid", pdf, p0, jb)
+	fillCase(origin+":invalid", pdf, p0, jb, "")
 }
 
 // ---- edited forms: states api.Create never produces ----
+
+var dropAllNames bool
 
 func editedForms(pdf []byte) [][]byte {
 	var outs [][]byte
@@ -764,7 +825,7 @@ func editedForms(pdf []byte) [][]byte {
 				return true
 			}
 		case "Tx":
-			if r.Rand.Intn(2) == 0 {
+			if dropAllNames || r.Rand.Intn(2) == 0 {
 				d.Delete("T")
 				return true
 			}
@@ -825,6 +886,19 @@ func main() {
 		name := filepath.Base(filepath.Dir(path)) + "/" + filepath.Base(path)
 		latin := strings.Contains(name, "english") || strings.Contains(name, "person")
 		scenario("sample:"+name, pdf, latin && (r.Thorough() || strings.Contains(name, "demoSinglePage")))
+	}
+
+	// a fixed form with every field type; deselection of single-select lists and radio groups is forced
+	if pdf, err := createPDF([]byte(directedJSON)); err == nil {
+		scenario("directed", pdf, true)
+		dropAllNames = true
+		ed := editedForms(pdf)
+		dropAllNames = false
+		for _, e := range ed {
+			scenario("directed-edited", e, true)
+		}
+	} else {
+		r.Count("create:directed-rejected")
 	}
 
 	n := r.Pick(14, 160)
